@@ -772,6 +772,15 @@ impl<'a> Runner<'a> {
                                     format!("{}: automatic timestamp {} is not greater than {} (previous generation / accepted timestamp of this key)", op.brief(), t, prior),
                                 ));
                             }
+                            if t == u64::MAX && !self.pinned.contains(&key) {
+                                // the store pinned a key the application never pinned: its next automatic call must fail
+                                let sig = if self.near_max_accepted { "auto-ts:clock-saturated-by-near-max-explicit".to_string() } else { format!("auto-ts:assigned-max:{}", op.name()) };
+                                return Err(self.fail(
+                                    step,
+                                    &sig,
+                                    format!("{}: the store assigned the automatic timestamp u64::MAX to a key the application never pinned (largest explicit timestamp accepted anywhere: {}); every later automatic call on it is refused as older", op.brief(), self.max_accepted),
+                                ));
+                            }
                             if t < self.model.now {
                                 return Err(self.fail(step, &format!("auto-ts:below-now:{}", op.name()), format!("{}: automatic timestamp {} below current time {}", op.brief(), t, self.model.now)));
                             }
